@@ -114,3 +114,75 @@ const DAY_IN_MONTHS_NORMAL_YEAR: [i64; 12] = [31, 28, 31, 30, 31, 30, 31, 31, 30
 /// Cumulated month days in a normal year
 const CUMUL_DAY_IN_MONTHS_NORMAL_YEAR: [i64; 12] =
     [0, 31, 59, 90, 120, 151, 181, 212, 243, 273, 304, 334];
+
+/// Verification hooks (read-only accessors, compiled only with `--cfg chrono_verif`).
+///
+/// Builds a zone from TZif bytes, from a POSIX TZ string or from parts (through the real
+/// `TimeZone::new` validation) and exposes the two lookups with the reader's `Ok`/`Err` visible.
+#[cfg(chrono_verif)]
+#[allow(unreachable_pub, missing_docs)]
+pub mod verif {
+    use super::rule::TransitionRule;
+    use super::timezone::{LocalTimeType, TimeZone, Transition};
+    use crate::{MappedLocalTime, NaiveDateTime};
+
+    pub struct Zone(TimeZone);
+
+    impl core::fmt::Debug for Zone {
+        fn fmt(&self, f: &mut core::fmt::Formatter) -> core::fmt::Result {
+            f.write_str("Zone")
+        }
+    }
+
+    impl Zone {
+        pub fn from_tzif(bytes: &[u8]) -> Result<Zone, ()> {
+            TimeZone::from_tz_data(bytes).map(Zone).map_err(|_| ())
+        }
+
+        /// A zone that consists only of a POSIX TZ rule (as for `TZ=<rule>`).
+        pub fn from_tz_string(tz: &[u8]) -> Result<Zone, ()> {
+            let rule = TransitionRule::from_tz_string(tz, false).map_err(|_| ())?;
+            let types = match rule {
+                TransitionRule::Fixed(ltt) => vec![ltt],
+                TransitionRule::Alternate(alt) => vec![alt.std, alt.dst],
+            };
+            TimeZone::new(vec![], types, vec![], Some(rule)).map(Zone).map_err(|_| ())
+        }
+
+        /// `transitions`: (unix time, type index); `types`: (ut offset, is_dst); optional footer rule.
+        pub fn from_parts(
+            transitions: &[(i64, usize)],
+            types: &[(i32, bool)],
+            footer: Option<&[u8]>,
+        ) -> Result<Zone, ()> {
+            let mut tr = Vec::with_capacity(transitions.len());
+            for &(t, i) in transitions {
+                tr.push(Transition::new(t, i));
+            }
+            let mut ty = Vec::with_capacity(types.len());
+            for &(o, d) in types {
+                ty.push(LocalTimeType::new(o, d, None).map_err(|_| ())?);
+            }
+            let rule = match footer {
+                Some(f) => Some(TransitionRule::from_tz_string(f, false).map_err(|_| ())?),
+                None => None,
+            };
+            TimeZone::new(tr, ty, vec![], rule).map(Zone).map_err(|_| ())
+        }
+
+        pub fn offset_at(&self, unix_time: i64) -> Result<i32, ()> {
+            self.0.find_local_time_type(unix_time).map(|t| t.offset()).map_err(|_| ())
+        }
+
+        pub fn offsets_for_local(&self, local: NaiveDateTime) -> Result<MappedLocalTime<i32>, ()> {
+            match self.0.find_local_time_type_from_local(local) {
+                Ok(MappedLocalTime::None) => Ok(MappedLocalTime::None),
+                Ok(MappedLocalTime::Single(a)) => Ok(MappedLocalTime::Single(a.offset())),
+                Ok(MappedLocalTime::Ambiguous(a, b)) => {
+                    Ok(MappedLocalTime::Ambiguous(a.offset(), b.offset()))
+                }
+                Err(_) => Err(()),
+            }
+        }
+    }
+}
